@@ -9,23 +9,46 @@ Proof.
   - apply IH. intros H. apply Hx. now right.
 Qed.
 
+Lemma NoDup_snoc_inv {A} (l : list A) x : NoDup (l ++ [x]) -> ~ In x l.
+Proof.
+  intros H Hin. apply NoDup_remove_2 with (l' := []) in H. apply H. rewrite app_nil_r. exact Hin.
+Qed.
+
+(* between flock and unlock *)
+Definition midb (c : pc) : bool :=
+  match c with
+  | PLocked | PRead | PBeforeTrunc | PTruncated | PWriting _ | PWritten => true
+  | _ => false
+  end.
+Definition mid (c : pc) : Prop := midb c = true.
+
+(* the content has been read *)
+Definition has_readb (c : pc) : bool :=
+  match c with
+  | PRead | PBeforeTrunc | PTruncated | PWriting _ | PWritten | PDone => true
+  | _ => false
+  end.
+Definition has_read (c : pc) : Prop := has_readb c = true.
+
+Definition before_lock (c : pc) : Prop := c = PStart \/ c = POpened.
+
 Section Proofs.
   Variable upd : nat -> bytes -> option bytes.
+  Variable mids : nat -> bytes -> list bytes.
   Variable f0 : bytes.
 
   Notation eff := (eff upd f0).
-  Notation step := (step upd).
+  Notation step := (step upd mids).
 
-  Definition before_lock (c : pc) : Prop := c = PStart \/ c = POpened.
-  Definition mid (c : pc) : Prop :=
-    c = PLocked \/ c = PRead \/ c = PBeforeTrunc \/ c = PTruncated \/ c = PWritten.
-
+  (* what the file holds while h has the lock, l' being the processes that had it before *)
   Definition holder_ok (s : state) (h : nat) (l' : list nat) : Prop :=
     match pcs s h with
     | PLocked => file s = eff l'
     | PRead => file s = eff l' /\ snaps s h = eff l'
     | PBeforeTrunc => file s = eff l' /\ snaps s h = eff l' /\ upd h (snaps s h) <> None
-    | PTruncated => snaps s h = eff l' /\ upd h (snaps s h) <> None
+    | PTruncated => file s = [] /\ snaps s h = eff l' /\ upd h (snaps s h) <> None
+    | PWriting todo => snaps s h = eff l' /\
+                       exists c done, upd h (snaps s h) = Some c /\ mids h c = done ++ file s :: todo
     | PWritten => snaps s h = eff l' /\ file s = eff (l' ++ [h])
     | _ => False
     end.
@@ -59,27 +82,84 @@ Section Proofs.
   Lemma eff_snoc l p : eff (l ++ [p]) = apply1 upd (eff l) p.
   Proof. unfold LockDefs.eff. now rewrite fold_left_app. Qed.
 
+  Lemma mid_not_before c : mid c -> ~ before_lock c.
+  Proof. intros Hm [H|H]; rewrite H in Hm; discriminate. Qed.
+
   (* a process in the middle of its critical section is the lock holder *)
   Lemma mid_is_holder s p : Inv s -> mid (pcs s p) -> lock s = Some p.
   Proof.
     intros I Hm.
-    assert (Hin : In p (log s)).
-    { apply (i_log s I). intros [H|H]; unfold mid in Hm; rewrite H in Hm; intuition discriminate. }
+    assert (Hin : In p (log s)) by (apply (i_log s I); now apply mid_not_before).
     destruct (lock s) as [h|] eqn:El.
     - destruct (i_held s I h El) as [l' [Hl [Hd _]]].
       rewrite Hl in Hin. apply in_app_or in Hin. destruct Hin as [Hin|[->|[]]]; [|reflexivity].
-      apply Hd in Hin. unfold mid in Hm. rewrite Hin in Hm. intuition discriminate.
+      apply Hd in Hin. unfold mid in Hm. rewrite Hin in Hm. discriminate.
     - destruct (i_free s I El) as [_ Hd]. apply Hd in Hin.
-      unfold mid in Hm. rewrite Hin in Hm. intuition discriminate.
+      unfold mid in Hm. rewrite Hin in Hm. discriminate.
   Qed.
 
-  Ltac pcs_cases q p :=
-    destruct (Nat.eq_dec q p) as [->|?];
-    [rewrite ?upd_fun_same in *
-    |repeat match goal with
-            | H : q <> p |- context [upd_fun ?f p ?x q] => rewrite (upd_fun_other f p x q H)
-            | H : q <> p, H2 : context [upd_fun ?f p ?x q] |- _ => rewrite (upd_fun_other f p x q H) in H2
-            end].
+  (* the holder moves inside its critical section *)
+  Lemma inv_holder_move s p l' f' c' :
+    Inv s -> lock s = Some p -> log s = l' ++ [p] -> mid (pcs s p) -> mid c' ->
+    let s' := mkstate f' (lock s) (upd_fun (pcs s) p c') (snaps s) (log s) in
+    holder_ok s' p l' -> Inv s'.
+  Proof.
+    intros I El Hl Hm Hm' s' Hh.
+    assert (Hnotin : ~ In p l') by (apply NoDup_snoc_inv; rewrite <- Hl; apply (i_nodup s I)).
+    destruct (i_held s I p El) as [l0 [Hl0 [Hd0 _]]].
+    assert (l0 = l') by (rewrite Hl in Hl0; now apply app_inj_tail in Hl0 as [-> _]). subst l0.
+    constructor; cbn.
+    - apply (i_nodup s I).
+    - intros q. rewrite (i_log s I q). destruct (Nat.eq_dec q p) as [->|Hq].
+      + rewrite upd_fun_same. split; intros _; now apply mid_not_before.
+      + now rewrite upd_fun_other.
+    - congruence.
+    - intros h Hh'. rewrite El in Hh'. injection Hh' as <-. exists l'. split; [exact Hl|]. split; [|exact Hh].
+      intros q Hq. rewrite upd_fun_other by (intros ->; contradiction). now apply Hd0.
+    - intros q Hq. destruct (Nat.eq_dec q p) as [->|Hne].
+      + rewrite upd_fun_same in Hq. rewrite Hq in Hm'. discriminate.
+      + rewrite upd_fun_other in Hq by exact Hne. apply (i_done s I q Hq).
+  Qed.
+
+  (* the holder releases the lock *)
+  Lemma inv_release s p l' :
+    Inv s -> lock s = Some p -> log s = l' ++ [p] ->
+    file s = eff (l' ++ [p]) -> snaps s p = eff l' ->
+    Inv (mkstate (file s) None (upd_fun (pcs s) p PDone) (snaps s) (log s)).
+  Proof.
+    intros I El Hl Hf Hsn.
+    destruct (i_held s I p El) as [l0 [Hl0 [Hd0 Hh0]]].
+    assert (l0 = l') by (rewrite Hl in Hl0; now apply app_inj_tail in Hl0 as [-> _]). subst l0.
+    assert (Hmid : ~ before_lock (pcs s p)).
+    { apply (i_log s I). rewrite Hl. apply in_or_app. right. now left. }
+    constructor; cbn.
+    - apply (i_nodup s I).
+    - intros q. rewrite (i_log s I q). destruct (Nat.eq_dec q p) as [->|Hq].
+      + rewrite upd_fun_same. split; intros _; [intros [H|H]; discriminate|exact Hmid].
+      + now rewrite upd_fun_other.
+    - intros _. split; [now rewrite Hl|].
+      intros q Hq. destruct (Nat.eq_dec q p) as [->|Hne]; [now rewrite upd_fun_same|].
+      rewrite upd_fun_other by exact Hne.
+      rewrite Hl in Hq. apply in_app_or in Hq. destruct Hq as [Hq|[Hq|[]]]; [auto|congruence].
+    - discriminate.
+    - intros q Hq. destruct (Nat.eq_dec q p) as [->|Hne].
+      + exists l', []. split; [exact Hl|exact Hsn].
+      + rewrite upd_fun_other in Hq by exact Hne. apply (i_done s I q Hq).
+  Qed.
+
+  Lemma inv_write_next s p l' c done todo :
+    Inv s -> lock s = Some p -> log s = l' ++ [p] -> mid (pcs s p) ->
+    snaps s p = eff l' -> upd p (snaps s p) = Some c -> mids p c = done ++ todo ->
+    Inv (write_next s p c todo).
+  Proof.
+    intros I El Hl Hm Hsn Eu Hmids. unfold write_next. destruct todo as [|m rest].
+    - apply (inv_holder_move s p l' c PWritten I El Hl Hm eq_refl).
+      unfold holder_ok. cbn. rewrite upd_fun_same. split; [exact Hsn|].
+      rewrite eff_snoc. unfold apply1. now rewrite <- Hsn, Eu.
+    - apply (inv_holder_move s p l' m (PWriting rest) I El Hl Hm eq_refl).
+      unfold holder_ok. cbn. rewrite upd_fun_same. split; [exact Hsn|].
+      exists c, done. split; assumption.
+  Qed.
 
   Lemma inv_step s p s' : Inv s -> step s p = Some s' -> Inv s'.
   Proof.
@@ -88,16 +168,20 @@ Section Proofs.
     - (* PStart -> POpened *)
       injection Hs as <-. constructor; cbn.
       + apply (i_nodup s I).
-      + intros q. rewrite (i_log s I q). pcs_cases q p.
-        * rewrite Ep. split; intros H; elim H; [now left|now right].
-        * reflexivity.
+      + intros q. rewrite (i_log s I q). destruct (Nat.eq_dec q p) as [->|Hq].
+        * rewrite upd_fun_same, Ep. split; intros H; elim H; [now left|now right].
+        * now rewrite upd_fun_other.
       + intros El. destruct (i_free s I El) as [Hf Hd]. split; [exact Hf|].
-        intros q Hq. pcs_cases q p; [|auto]. apply Hd in Hq. congruence.
+        intros q Hq. destruct (Nat.eq_dec q p) as [->|Hne]; [apply Hd in Hq; congruence|].
+        rewrite upd_fun_other by exact Hne. auto.
       + intros h El. destruct (i_held s I h El) as [l' [Hl [Hd Hh]]].
         exists l'. split; [exact Hl|]. split.
-        * intros q Hq. pcs_cases q p; [|auto]. apply Hd in Hq. congruence.
-        * unfold holder_ok in *. cbn. pcs_cases h p; [rewrite Ep in Hh; contradiction|exact Hh].
-      + intros q Hq. pcs_cases q p; [discriminate|]. apply (i_done s I q Hq).
+        * intros q Hq. destruct (Nat.eq_dec q p) as [->|Hne]; [apply Hd in Hq; congruence|].
+          rewrite upd_fun_other by exact Hne. auto.
+        * unfold holder_ok in *. cbn. destruct (Nat.eq_dec h p) as [->|Hne]; [rewrite Ep in Hh; contradiction|].
+          rewrite upd_fun_other by exact Hne. exact Hh.
+      + intros q Hq. destruct (Nat.eq_dec q p) as [->|Hne]; [rewrite upd_fun_same in Hq; discriminate|].
+        rewrite upd_fun_other in Hq by exact Hne. apply (i_done s I q Hq).
     - (* POpened -> PLocked, needs the lock free *)
       destruct (lock s) eqn:El; [discriminate|]. injection Hs as <-.
       destruct (i_free s I El) as [Hf Hd].
@@ -105,107 +189,81 @@ Section Proofs.
       { intros Hin. apply (i_log s I) in Hin. apply Hin. now right. }
       constructor; cbn.
       + apply NoDup_snoc; [apply (i_nodup s I)|exact Hnotin].
-      + intros q. rewrite in_app_iff. cbn. pcs_cases q p.
-        * split; [intros _ [H|H]; discriminate|auto].
-        * rewrite (i_log s I q). split; [intros [H|[H|[]]]; [exact H|congruence]|auto].
+      + intros q. rewrite in_app_iff. cbn. destruct (Nat.eq_dec q p) as [->|Hq].
+        * rewrite upd_fun_same. split; [intros _ [H|H]; discriminate|auto].
+        * rewrite upd_fun_other by exact Hq. rewrite (i_log s I q).
+          split; [intros [H|[H|[]]]; [exact H|congruence]|auto].
       + discriminate.
       + intros h Hh. injection Hh as <-. exists (log s). split; [reflexivity|]. split.
-        * intros q Hq. pcs_cases q p; [contradiction|auto].
+        * intros q Hq. destruct (Nat.eq_dec q p) as [->|Hne]; [contradiction|].
+          rewrite upd_fun_other by exact Hne. auto.
         * unfold holder_ok. cbn. rewrite upd_fun_same. exact Hf.
-      + intros q Hq. pcs_cases q p; [discriminate|].
+      + intros q Hq. destruct (Nat.eq_dec q p) as [->|Hne]; [rewrite upd_fun_same in Hq; discriminate|].
+        rewrite upd_fun_other in Hq by exact Hne.
         destruct (i_done s I q Hq) as [pre [post [Hl Hsn]]].
         exists pre, (post ++ [p]). split; [rewrite Hl, <- app_assoc; reflexivity|exact Hsn].
     - (* PLocked -> PRead *)
       injection Hs as <-.
-      assert (El : lock s = Some p) by (apply mid_is_holder; [exact I|rewrite Ep; unfold mid; auto]).
+      assert (Hm : mid (pcs s p)) by (now rewrite Ep).
+      pose proof (mid_is_holder s p I Hm) as El.
       destruct (i_held s I p El) as [l' [Hl [Hd Hh]]]. unfold holder_ok in Hh. rewrite Ep in Hh.
+      (* the snapshot function changes too: do it by hand *)
+      assert (Hnotin : ~ In p l') by (apply NoDup_snoc_inv; rewrite <- Hl; apply (i_nodup s I)).
       constructor; cbn.
       + apply (i_nodup s I).
-      + intros q. rewrite (i_log s I q). pcs_cases q p; [|reflexivity].
-        rewrite Ep. split; intros _ [H|H]; discriminate.
+      + intros q. rewrite (i_log s I q). destruct (Nat.eq_dec q p) as [->|Hq].
+        * rewrite upd_fun_same, Ep. split; intros _ [H|H]; discriminate.
+        * now rewrite upd_fun_other.
       + congruence.
       + intros h Hh'. rewrite El in Hh'. injection Hh' as <-. exists l'. split; [exact Hl|]. split.
-        * intros q Hq. pcs_cases q p; [|auto]. apply Hd in Hq. congruence.
+        * intros q Hq. rewrite upd_fun_other by (intros ->; contradiction). auto.
         * unfold holder_ok. cbn. rewrite !upd_fun_same. auto.
-      + intros q Hq. pcs_cases q p; [discriminate|]. apply (i_done s I q Hq).
+      + intros q Hq. destruct (Nat.eq_dec q p) as [->|Hne]; [rewrite upd_fun_same in Hq; discriminate|].
+        rewrite upd_fun_other in Hq by exact Hne. rewrite upd_fun_other by exact Hne. apply (i_done s I q Hq).
     - (* PRead -> PBeforeTrunc or PDone *)
-      assert (El : lock s = Some p) by (apply mid_is_holder; [exact I|rewrite Ep; unfold mid; auto]).
+      assert (Hm : mid (pcs s p)) by (now rewrite Ep).
+      pose proof (mid_is_holder s p I Hm) as El.
       destruct (i_held s I p El) as [l' [Hl [Hd Hh]]]. unfold holder_ok in Hh. rewrite Ep in Hh.
       destruct Hh as [Hf Hsn].
       destruct (upd p (snaps s p)) as [c|] eqn:Eu; injection Hs as <-.
-      + constructor; cbn.
-        * apply (i_nodup s I).
-        * intros q. rewrite (i_log s I q). pcs_cases q p; [|reflexivity].
-          rewrite Ep. split; intros _ [H|H]; discriminate.
-        * congruence.
-        * intros h Hh'. rewrite El in Hh'. injection Hh' as <-. exists l'. split; [exact Hl|]. split.
-          -- intros q Hq. pcs_cases q p; [|auto]. apply Hd in Hq. congruence.
-          -- unfold holder_ok. cbn. rewrite upd_fun_same. repeat split; auto. congruence.
-        * intros q Hq. pcs_cases q p; [discriminate|]. apply (i_done s I q Hq).
-      + (* nothing to write: release *)
-        constructor; cbn.
-        * apply (i_nodup s I).
-        * intros q. rewrite (i_log s I q). pcs_cases q p; [|reflexivity].
-          rewrite Ep. split; intros _ [H|H]; discriminate.
-        * intros _. split.
-          -- assert (Hgoal : file s = eff (l' ++ [p])).
-             { rewrite eff_snoc. unfold apply1. rewrite <- Hsn, Eu. congruence. }
-             rewrite Hl. exact Hgoal.
-          -- intros q Hq. pcs_cases q p; [reflexivity|].
-             rewrite Hl in Hq. apply in_app_or in Hq. destruct Hq as [Hq|[Hq|[]]]; [auto|congruence].
-        * discriminate.
-        * intros q Hq. pcs_cases q p.
-          -- exists l', []. split; [exact Hl|exact Hsn].
-          -- apply (i_done s I q Hq).
+      + apply (inv_holder_move s p l' (file s) PBeforeTrunc I El Hl Hm eq_refl).
+        unfold holder_ok. cbn. rewrite upd_fun_same. repeat split; auto. congruence.
+      + apply (inv_release s p l' I El Hl); [|exact Hsn].
+        rewrite eff_snoc. unfold apply1. rewrite <- Hsn, Eu. congruence.
     - (* PBeforeTrunc -> PTruncated *)
       injection Hs as <-.
-      assert (El : lock s = Some p) by (apply mid_is_holder; [exact I|rewrite Ep; unfold mid; auto 6]).
+      assert (Hm : mid (pcs s p)) by (now rewrite Ep).
+      pose proof (mid_is_holder s p I Hm) as El.
       destruct (i_held s I p El) as [l' [Hl [Hd Hh]]]. unfold holder_ok in Hh. rewrite Ep in Hh.
       destruct Hh as [Hf [Hsn Hu]].
-      constructor; cbn.
-      + apply (i_nodup s I).
-      + intros q. rewrite (i_log s I q). pcs_cases q p; [|reflexivity].
-        rewrite Ep. split; intros _ [H|H]; discriminate.
-      + congruence.
-      + intros h Hh'. rewrite El in Hh'. injection Hh' as <-. exists l'. split; [exact Hl|]. split.
-        * intros q Hq. pcs_cases q p; [|auto]. apply Hd in Hq. congruence.
-        * unfold holder_ok. cbn. rewrite upd_fun_same. auto.
-      + intros q Hq. pcs_cases q p; [discriminate|]. apply (i_done s I q Hq).
-    - (* PTruncated -> PWritten *)
-      assert (El : lock s = Some p) by (apply mid_is_holder; [exact I|rewrite Ep; unfold mid; auto 6]).
+      apply (inv_holder_move s p l' [] PTruncated I El Hl Hm eq_refl).
+      unfold holder_ok. cbn. rewrite upd_fun_same. auto.
+    - (* PTruncated -> first piece of the rewrite *)
+      assert (Hm : mid (pcs s p)) by (now rewrite Ep).
+      pose proof (mid_is_holder s p I Hm) as El.
       destruct (i_held s I p El) as [l' [Hl [Hd Hh]]]. unfold holder_ok in Hh. rewrite Ep in Hh.
-      destruct Hh as [Hsn Hu].
+      destruct Hh as [_ [Hsn Hu]].
       destruct (upd p (snaps s p)) as [c|] eqn:Eu; [|discriminate]. injection Hs as <-.
-      constructor; cbn.
-      + apply (i_nodup s I).
-      + intros q. rewrite (i_log s I q). pcs_cases q p; [|reflexivity].
-        rewrite Ep. split; intros _ [H|H]; discriminate.
-      + congruence.
-      + intros h Hh'. rewrite El in Hh'. injection Hh' as <-. exists l'. split; [exact Hl|]. split.
-        * intros q Hq. pcs_cases q p; [|auto]. apply Hd in Hq. congruence.
-        * unfold holder_ok. cbn. rewrite upd_fun_same. split; [exact Hsn|].
-          rewrite eff_snoc. unfold apply1. now rewrite <- Hsn, Eu.
-      + intros q Hq. pcs_cases q p; [discriminate|]. apply (i_done s I q Hq).
+      apply (inv_write_next s p l' c [] (mids p c) I El Hl Hm Hsn Eu eq_refl).
+    - (* PWriting -> next piece *)
+      assert (Hm : mid (pcs s p)) by (now rewrite Ep).
+      pose proof (mid_is_holder s p I Hm) as El.
+      destruct (i_held s I p El) as [l' [Hl [Hd Hh]]]. unfold holder_ok in Hh. rewrite Ep in Hh.
+      destruct Hh as [Hsn [c [done [Eu Hmids]]]].
+      rewrite Eu in Hs. injection Hs as <-.
+      apply (inv_write_next s p l' c (done ++ [file s]) todo I El Hl Hm Hsn Eu).
+      now rewrite <- app_assoc.
     - (* PWritten -> PDone *)
       injection Hs as <-.
-      assert (El : lock s = Some p) by (apply mid_is_holder; [exact I|rewrite Ep; unfold mid; auto 6]).
+      assert (Hm : mid (pcs s p)) by (now rewrite Ep).
+      pose proof (mid_is_holder s p I Hm) as El.
       destruct (i_held s I p El) as [l' [Hl [Hd Hh]]]. unfold holder_ok in Hh. rewrite Ep in Hh.
       destruct Hh as [Hsn Hf].
-      constructor; cbn.
-      + apply (i_nodup s I).
-      + intros q. rewrite (i_log s I q). pcs_cases q p; [|reflexivity].
-        rewrite Ep. split; intros _ [H|H]; discriminate.
-      + intros _. split; [now rewrite Hl|].
-        intros q Hq. pcs_cases q p; [reflexivity|].
-        rewrite Hl in Hq. apply in_app_or in Hq. destruct Hq as [Hq|[Hq|[]]]; [auto|congruence].
-      + discriminate.
-      + intros q Hq. pcs_cases q p.
-        * exists l', []. split; [exact Hl|exact Hsn].
-        * apply (i_done s I q Hq).
+      apply (inv_release s p l' I El Hl Hf Hsn).
     - discriminate.
   Qed.
 
-  Theorem inv_run sched : forall s, Inv s -> Inv (run upd s sched).
+  Theorem inv_run sched : forall s, Inv s -> Inv (run upd mids s sched).
   Proof.
     induction sched as [|p sched IH]; intros s I; [exact I|].
     cbn [run]. destruct (step s p) as [s'|] eqn:Es; [|auto].
@@ -216,11 +274,12 @@ End Proofs.
 (* ---- consequences ------------------------------------------------------------------------- *)
 Section Consequences.
   Variable upd : nat -> bytes -> option bytes.
+  Variable mids : nat -> bytes -> list bytes.
   Variable f0 : bytes.
 
-  Definition reachable (s : state) : Prop := exists sched, s = run upd (init f0) sched.
+  Definition reachable (s : state) : Prop := exists sched, s = run upd mids (init f0) sched.
 
-  Lemma reachable_inv s : reachable s -> Inv upd f0 s.
+  Lemma reachable_inv s : reachable s -> Inv upd mids f0 s.
   Proof. intros [sched ->]. apply inv_run. apply inv_init. Qed.
 
   (* at most one process is between flock and unlock *)
@@ -228,37 +287,32 @@ Section Consequences.
     reachable s -> mid (pcs s p) -> mid (pcs s q) -> p = q.
   Proof.
     intros R Hp Hq. apply reachable_inv in R.
-    pose proof (mid_is_holder upd f0 s p R Hp) as H1.
-    pose proof (mid_is_holder upd f0 s q R Hq) as H2. congruence.
+    pose proof (mid_is_holder upd mids f0 s p R Hp) as H1.
+    pose proof (mid_is_holder upd mids f0 s q R Hq) as H2. congruence.
   Qed.
 
   (* only the lock holder ever changes the file *)
   Theorem only_holder_writes s p s' :
-    reachable s -> step upd s p = Some s' -> file s' <> file s -> lock s = Some p.
+    reachable s -> step upd mids s p = Some s' -> file s' <> file s -> lock s = Some p.
   Proof.
-    intros R Hs Hf. apply reachable_inv in R. unfold step in Hs.
-    destruct (pcs s p) eqn:Ep.
+    intros R Hs Hf. apply reachable_inv in R.
+    destruct (midb (pcs s p)) eqn:Em; [now apply (mid_is_holder upd mids f0 s p R)|].
+    exfalso. unfold step in Hs. destruct (pcs s p) eqn:Ep; try discriminate Em.
     - injection Hs as <-. now elim Hf.
     - destruct (lock s); [discriminate|]. injection Hs as <-. now elim Hf.
-    - injection Hs as <-. now elim Hf.
-    - destruct (upd p (snaps s p)); injection Hs as <-; now elim Hf.
-    - apply mid_is_holder with (upd := upd) (f0 := f0); [exact R|rewrite Ep; unfold mid; auto 6].
-    - apply mid_is_holder with (upd := upd) (f0 := f0); [exact R|rewrite Ep; unfold mid; auto 6].
-    - injection Hs as <-. now elim Hf.
     - discriminate.
   Qed.
 
   (* whatever a process has read is the committed result of the processes that
      were granted the lock before it - never a truncated or half-written file *)
   Theorem snapshot_is_committed_prefix s p :
-    reachable s ->
-    (pcs s p = PRead \/ pcs s p = PBeforeTrunc \/ pcs s p = PTruncated \/ pcs s p = PWritten \/ pcs s p = PDone) ->
+    reachable s -> has_read (pcs s p) ->
     exists pre post, log s = pre ++ p :: post /\ snaps s p = eff upd f0 pre.
   Proof.
     intros R Hp. apply reachable_inv in R.
-    destruct Hp as [Hp|[Hp|[Hp|[Hp|Hp]]]]; [| | | |apply (i_done upd f0 s R p Hp)].
-    all: assert (El : lock s = Some p) by (apply mid_is_holder with (upd := upd) (f0 := f0); [exact R|rewrite Hp; unfold mid; auto 6]).
-    all: destruct (i_held upd f0 s R p El) as [l' [Hl [_ Hh]]]; unfold holder_ok in Hh; rewrite Hp in Hh.
+    destruct (pcs s p) eqn:Ep; try discriminate Hp; [| | | | |apply (i_done upd mids f0 s R p Ep)].
+    all: assert (El : lock s = Some p) by (apply (mid_is_holder upd mids f0 s p R); now rewrite Ep).
+    all: destruct (i_held upd mids f0 s R p El) as [l' [Hl [_ Hh]]]; unfold holder_ok in Hh; rewrite Ep in Hh.
     all: exists l', []; split; [exact Hl|tauto].
   Qed.
 
@@ -273,12 +327,41 @@ Section Consequences.
     intros R Hq. apply reachable_inv in R.
     assert (El : lock s = None).
     { destruct (lock s) as [h|] eqn:El; [|reflexivity].
-      destruct (i_held upd f0 s R h El) as [l' [_ [_ Hh]]]. unfold holder_ok in Hh.
+      destruct (i_held upd mids f0 s R h El) as [l' [_ [_ Hh]]]. unfold holder_ok in Hh.
       destruct (Hq h) as [H|[H|H]]; rewrite H in Hh; contradiction. }
-    split; [exact El|]. destruct (i_free upd f0 s R El) as [Hf Hd].
-    split; [exact Hf|]. split; [apply (i_nodup upd f0 s R)|]. split.
-    - intros q. split; [apply Hd|]. intros H. apply (i_log upd f0 s R). rewrite H. intros [E|E]; discriminate.
-    - apply (i_done upd f0 s R).
+    split; [exact El|]. destruct (i_free upd mids f0 s R El) as [Hf Hd].
+    split; [exact Hf|]. split; [apply (i_nodup upd mids f0 s R)|]. split.
+    - intros q. split; [apply Hd|]. intros H. apply (i_log upd mids f0 s R). rewrite H. intros [E|E]; discriminate.
+    - apply (i_done upd mids f0 s R).
+  Qed.
+
+  (* AT EVERY reachable state, what is in the file - hence what a reader that does NOT take the
+     lock could see: with the lock free, the committed result of everybody who had it; while h holds
+     it, the result of those before h, or nothing (h has truncated), or one of the intermediate
+     contents of h's rewrite, or h's complete result (not yet unlocked) *)
+  Theorem file_at_every_state s :
+    reachable s ->
+    match lock s with
+    | None => file s = eff upd f0 (log s)
+    | Some h =>
+        exists l', log s = l' ++ [h] /\
+          (file s = eff upd f0 l' \/
+           (pcs s h = PTruncated /\ file s = []) \/
+           (exists todo c, pcs s h = PWriting todo /\ upd h (eff upd f0 l') = Some c /\ In (file s) (mids h c)) \/
+           (pcs s h = PWritten /\ file s = eff upd f0 (l' ++ [h])))
+    end.
+  Proof.
+    intros R. apply reachable_inv in R. destruct (lock s) as [h|] eqn:El.
+    - destruct (i_held upd mids f0 s R h El) as [l' [Hl [_ Hh]]]. exists l'. split; [exact Hl|].
+      unfold holder_ok in Hh. destruct (pcs s h) eqn:Ep; try contradiction.
+      + now left.
+      + left. tauto.
+      + left. tauto.
+      + right. left. tauto.
+      + right. right. left. destruct Hh as [Hsn [c [done [Eu Hm]]]]. exists todo, c.
+        split; [reflexivity|]. split; [now rewrite <- Hsn|]. rewrite Hm. apply in_or_app. right. now left.
+      + right. right. right. tauto.
+    - apply (i_free upd mids f0 s R El).
   Qed.
 End Consequences.
 
@@ -287,7 +370,61 @@ Definition append_upd (p : nat) (c : bytes) : option bytes := Some (c ++ [N.of_n
 
 Lemma lost_update_without_lock :
   let sched := [0; 0; 0; 1; 1; 1; 0; 0; 0; 0; 1; 1; 1; 1]%nat in
-  let s := run_nolock append_upd (init []) sched in
+  let s := run_nolock append_upd no_mids (init []) sched in
   pcs s 0%nat = PDone /\ pcs s 1%nat = PDone /\ file s = [98]%N /\
   file s <> eff append_upd [] [0; 1]%nat /\ file s <> eff append_upd [] [1; 0]%nat.
 Proof. vm_compute. repeat split; discriminate. Qed.
+
+(* ---- and what holding it until after the flush buys --------------------------------------- *)
+(* writer 0 truncates and releases the lock before its data is in the file: reader 1 locks, reads
+   nothing - not the result of any prefix of the lock order - and writer 2 rebuilds the file from
+   nothing, after which writer 0's data lands on top: the update of 2 is lost *)
+Definition eu_upd (p : nat) (c : bytes) : option bytes :=
+  if Nat.eqb p 1 then None else Some (c ++ [N.of_nat p + 97]%N).
+
+Lemma early_unlock_breaks_both_clauses :
+  let sched := [0; 0; 0; 0; 0; 1; 1; 1; 1; 2; 2; 2; 2; 2; 2; 2; 0; 0]%nat in
+  let s := run_early_unlock eu_upd no_mids (init [120]) sched in
+  pcs s 0%nat = PDone /\ pcs s 1%nat = PDone /\ pcs s 2%nat = PDone /\ log s = [0; 1; 2]%nat /\
+  snaps s 1%nat = [] /\
+  (forall pre, snaps s 1%nat <> eff eu_upd [120] pre) /\
+  file s = [120; 97]%N /\ file s <> eff eu_upd [120] (log s).
+Proof.
+  cbv zeta.
+  split; [vm_compute; reflexivity|]. split; [vm_compute; reflexivity|]. split; [vm_compute; reflexivity|].
+  split; [vm_compute; reflexivity|]. split; [vm_compute; reflexivity|].
+  split; [|split; [vm_compute; reflexivity|vm_compute; discriminate]].
+  intros pre. replace (snaps _ 1%nat) with (@nil N) by (vm_compute; reflexivity).
+  assert (H : forall l c, fold_left (apply1 eu_upd) l c = [] -> c = []).
+  { induction l as [|x l IH]; intros c Hc; [exact Hc|]. cbn [fold_left] in Hc. apply IH in Hc.
+    unfold apply1, eu_upd in Hc. destruct (Nat.eqb x 1); [exact Hc|]. destruct c; discriminate. }
+  intros E. symmetry in E. apply H in E. discriminate.
+Qed.
+
+(* non-vacuity of the intermediate contents: with a rewrite in two pieces the file does hold a
+   strict prefix of the new content while the writer has the lock, and the reader that waits for
+   the lock still reads the complete content *)
+Definition half_mids (p : nat) (c : bytes) : list bytes := [firstn 1 c].
+
+Lemma partial_content_is_reachable_but_never_read :
+  let s0 := run append_upd half_mids (init [120; 121]) [0; 0; 0; 0; 0; 1; 1]%nat in
+  let s1 := run append_upd half_mids s0 [0]%nat in
+  let s2 := run append_upd half_mids s1 [0; 0; 1; 1]%nat in
+  (* truncated: the file is empty; then half written: a strict prefix; neither is the result of any
+     prefix of the lock order - this is what a reader that does not take the lock can see *)
+  file s0 = [] /\ file s1 = [120]%N /\ lock s1 = Some 0%nat /\ pcs s1 1%nat = POpened /\
+  (forall pre, file s0 <> eff append_upd [120; 121] pre) /\ (forall pre, file s1 <> eff append_upd [120; 121] pre) /\
+  (* the reader that waits for the lock reads the complete content *)
+  log s2 = [0; 1]%nat /\ snaps s2 1%nat = [120; 121; 97]%N.
+Proof.
+  cbv zeta.
+  assert (Hlen : forall l c, (2 <= length c)%nat -> (2 <= length (fold_left (apply1 append_upd) l c))%nat).
+  { induction l as [|x l IH]; intros c Hc; [exact Hc|]. cbn [fold_left]. apply IH.
+    unfold apply1, append_upd. rewrite app_length. cbn. lia. }
+  split; [vm_compute; reflexivity|]. split; [vm_compute; reflexivity|]. split; [vm_compute; reflexivity|].
+  split; [vm_compute; reflexivity|]. split; [|split; [|split; vm_compute; reflexivity]].
+  - intros pre E. pose proof (Hlen pre [120; 121]%N (le_n 2)) as H. unfold eff in E. rewrite <- E in H.
+    vm_compute in H. lia.
+  - intros pre E. pose proof (Hlen pre [120; 121]%N (le_n 2)) as H. unfold eff in E. rewrite <- E in H.
+    vm_compute in H. lia.
+Qed.
